@@ -9,7 +9,7 @@ from .interp import InterpBase, Frame, parse_expr
 
 SPEC_FUNCS = {"forall", "exists", "implies", "ite", "old", "prev", "seq_eq", "iff", "let", "count_true",
               "is_none", "opt_val", "strlen", "char_at", "substr", "in_re", "fresh_int", "imin", "imax",
-              "to_real", "distinct", "seq", "lam_seq", "str_of_int", "absv", "present", "iter_pos", "py_strip", "py_lower", "py_upper", "np_cast", "in_re"}
+              "to_real", "distinct", "uf_str", "uf_int", "seq", "lam_seq", "str_of_int", "absv", "present", "iter_pos", "py_strip", "py_lower", "py_upper", "np_cast", "in_re"}
 
 
 class EvalMixin(InterpBase):
@@ -69,13 +69,36 @@ class EvalMixin(InterpBase):
         return ListV([self.ev(e, fr) for e in node.elts])
 
     def ev_Dict(self, node, fr):
-        d = {}
+        out = DictV({})
         for k, v in zip(node.keys, node.values):
-            kk = self.ev(k, fr)
-            if is_z3(kk):
-                raise Unsupported("dict literal with symbolic key")
-            d[kk] = self.ev(v, fr)
-        return DictV(d)
+            if k is None:
+                raise Unsupported("dict unpacking in a literal")
+            self.dict_store(fr, out, self.ev(k, fr), self.ev(v, fr))
+        return out
+
+    def ev_Set(self, node, fr):
+        out = SetV({})
+        for e in node.elts:
+            self.dict_store(fr, out, self.ev(e, fr), True)
+        return out
+
+    def ev_DictComp(self, node, fr):
+        pairs = self.comprehension(node, fr, ast.Tuple(elts=[node.key, node.value], ctx=ast.Load()))
+        if pairs.items is None:
+            raise Unsupported("dict comprehension over a symbolic-length iterable")
+        out = DictV({})
+        for (k, v) in pairs.items:
+            self.dict_store(fr, out, k, v)       # later entries replace earlier ones with an equal key, as in Python
+        return out
+
+    def ev_SetComp(self, node, fr):
+        vals = self.comprehension(node, fr, node.elt)
+        if vals.items is None:
+            raise Unsupported("set comprehension over a symbolic-length iterable")
+        out = SetV({})
+        for x in vals.items:
+            self.dict_store(fr, out, x, True)
+        return out
 
     def ev_JoinedStr(self, node, fr):
         parts = []
@@ -334,7 +357,7 @@ class EvalMixin(InterpBase):
         if isinstance(src, tuple):
             src = ListV(list(src), kind="tuple")
         if isinstance(src, DictV):
-            src = ListV(list(src.d.keys()))
+            src = ListV(src.keys())
         if isinstance(src, Opaque) and isinstance(src.what, tuple) and src.what[0] == "range":
             lo, hi = src.what[1], src.what[2]
             if isinstance(lo, int) and isinstance(hi, int):
